@@ -11,7 +11,6 @@ import (
 	"github.com/cossacklabs/acra/keystore/v2/keystore/filesystem/backend"
 	backendAPI "github.com/cossacklabs/acra/keystore/v2/keystore/filesystem/backend/api"
 
-	"verifharness/internal/core"
 )
 
 type opSpec struct {
@@ -101,6 +100,7 @@ type outcome struct {
 	initial  []absRing
 	factors  []int
 	deadlock bool
+	panics   []string
 	w        *world
 	sc       scenario
 }
@@ -258,10 +258,22 @@ func runScenario(sc scenario, script []int, deterministic bool) *outcome {
 	// --- run
 	out.results = make([][]bool, len(sc.threads))
 	var wg sync.WaitGroup
+	var pmu sync.Mutex
 	for i := range sc.threads {
 		wg.Add(1)
 		go func(i int) {
 			defer wg.Done()
+			defer func() {
+				// a Go panic inside the key store must not take the harness down: it is an outcome
+				if p := recover(); p != nil {
+					pmu.Lock()
+					out.panics = append(out.panics, fmt.Sprintf("thread %d: %v", i, p))
+					pmu.Unlock()
+					if ctl != nil {
+						ctl.finished(i)
+					}
+				}
+			}()
 			t := sc.threads[i]
 			h := hs[i]
 			for _, o := range t.ops {
@@ -406,10 +418,14 @@ func (w *world) renderCall(rc rec) string {
 }
 
 // judge is the direct oracle on the implementation's observations (independent of the model).
-func judge(r *core.Run, o *outcome) {
+func judge(r checker, o *outcome) {
 	desc := func(what string) string { return what + " in scenario " + o.sc.key() }
 	if o.deadlock {
 		r.Fail("deadlock", desc("no thread could proceed"))
+		return
+	}
+	if len(o.panics) > 0 {
+		r.Fail("thread-panic", desc("the key store panicked: "+strings.Join(o.panics, "; ")))
 		return
 	}
 	// 1. lock discipline and completeness of everything read
